@@ -3,16 +3,16 @@ CONSTANTS
   Dev = ""
   Classes = {32, 64}
   Orders = {"LE", "BE"}
-  Seeds = {11, 4242}
+  Seeds = {11}
   MaxPh = 2
   MaxUser = 2
   MaxSym = 2
   Machines = {3}
   Types = {2}
   PTypes = {1, 4}
-  Layouts = {2, 3, 5}
-  Pads = {0, 8}
-  Kinds = {"bits", "nobits", "note", "initarr", "plain"}
+  Layouts = {2, 5}
+  Pads = {0}
+  Kinds = {"bits", "nobits", "plain"}
   SymChoices = {TRUE, FALSE}
 INIT Init
 NEXT Next
